@@ -36,7 +36,7 @@ def _getformat(val):
     string
         the format string.
     """
-    if int(val) == val:
+    if np.isfinite(val) and int(val) == val:
         return "%.1f"
     else:
         return "%.16g"
